@@ -200,9 +200,11 @@ def sh(cmd, timeout=1800, cwd=None):
 
 
 def regenerate():
-    """Re-run the translator; returns (ok, message)"""
+    """Re-run the translator; returns (status, message): 'ok' | 'partial' (Generated.v is fresh, but some
+    definitions could not be read from the source and were left out: the Coq files that need them no longer
+    compile) | 'fatal' (Generated.v could not be rewritten and may be stale)"""
     rc, out = sh(f"/venv/bin/python {VERIF}/tools/gen_consts.py {REPO} {THEORIES}/Generated.v")
-    return rc == 0, out.strip()
+    return {0: "ok", 3: "partial"}.get(rc, "fatal"), out.strip()
 
 
 def coq_make(targets=None):
@@ -219,7 +221,8 @@ def coq_make(targets=None):
             if rc != 0:
                 return False, out
         tgt = " ".join(f"theories/{t}.vo" for t in targets) if targets else ""
-        rc, out = sh(f"timeout 1500 make -j{JOBS} {tgt}", cwd=COQ, timeout=1600)
+        keep = "" if targets else "-k "          # a full build goes on past a file that no longer compiles
+        rc, out = sh(f"timeout 1500 make {keep}-j{JOBS} {tgt}", cwd=COQ, timeout=1600)
         return rc == 0, out
 
 
